@@ -417,6 +417,11 @@ Section CT.
     nodup_sigs (map (fun md => (md_name md, ptys (md_params md))) (cd_meths cd)) &&
     nodup_sigs (map (fun ct => (EmptyString, ptys (ct_params ct))) (cd_ctors cd)) &&
     nodup_names (map fd_name (cd_fields cd)) &&
+    (* no field reuses the name of an inherited field *)
+    match cd_base cd with
+    | Some b => forallb (fun fd => match find_field b (fd_name fd) with None => true | Some _ => false end) (cd_fields cd)
+    | None => true
+    end &&
     forallb (fun fd =>
                known_ty (fd_ty fd) && negb (is_void (fd_ty fd)) &&
                match fd_init fd with
